@@ -696,6 +696,8 @@ package workflow
 //@   ensures [the-results-are-those-of-the-preparation] called(prepare, 1) && result == callres(prepare, 1, 0) && result1 == callres(prepare, 1, 1)
 //@ func (*executor).prepare
 //@   requires e != nil && e.logger != nil && e.config != nil && e.stepRegistry != nil && workflow != nil
+//@   site call OutputSchema#1 assert [a-declared-output-schema-has-its-references-linked-before-it-is-used] \
+//@        outputSchema != nil ==> called(Schema, 1) && (callres(Schema, 1, 0) != nil ==> called(ApplySelf, 1) && callrecv(ApplySelf, 1) == any(callres(Schema, 1, 0)))
 //@   ensures [the-workflow-it-is-given-is-left-as-it-was] workflow.Outputs == old(workflow.Outputs) && workflow.Output == old(workflow.Output)
 //@   requires [step-ids-are-not-empty] forall s string :: indom(workflow.Steps, s) ==> s != ""
 //@   ensures [workflow-or-error] (result1 == nil) != (result == nil)
